@@ -1494,7 +1494,7 @@ pub fn search(name: &str, seed: u64) -> Value {
         "tables" | "prims_agree_with_kw" | "builders_select_same_rows_and_are_monotone" | "opcodes_pairwise_distinct" | "names_pairwise_distinct" | "selectors_agree" | "kw_rows_known_to_modern_compiler" | "stepper_constants_agree" => {
             chk_tables().unwrap_or_else(|| nf("run-time tables are mutually inverse per version, monotone, and agree with prims(); every operator of every version's table and every modern primitive is implemented by the evaluator selected for it (one-operator program per name, exhaustive)"))
         }
-        "reader_locs" => {
+        "reader_locs" | "unit:makeatom" | "unit:readerstep" => {
             let toks: Vec<&[u8]> = vec![b"(", b")", b" ", b"\t", b"\n", b"ab", b"x", b"12", b"0x1f", b"\"q s\"", b"'p'", b".", b";c\n"];
             let n = toks.len();
             let maxlen = if thorough() { 5 } else { 4 };
@@ -1597,7 +1597,7 @@ pub fn search(name: &str, seed: u64) -> Value {
             for (d, e) in open_cases.iter() { if let Some(v) = chk_repl_open(d, e, &open_args) { return v; } }
             nf("23 closed REPL sessions and 10 open ones (residual compiled and compared on 3 argument trees, incl. helpers spelled like the operators f / r / c) (arithmetic, recursion, inline, assign destructuring of 3/4/nested patterns, rest args, @ capture, constants, let/let*) reduce to the constant the compiled cl21 program returns")
         }
-        "classic_meaning" | "symbol_table_for_tree" => {
+        "classic_meaning" | "symbol_table_for_tree" | "unit:inlinesel" | "unit:symtable" => {
             // programs without a dialect sigil go through the classic (CLVM-hosted) compiler
             let cases: Vec<(&str, &str, &str)> = vec![
                 ("(mod (X) (defun ff1 (A) (* A 2)) (ff1 (+ X 1)))", "(3)", "8"),
@@ -1821,7 +1821,7 @@ pub fn search(name: &str, seed: u64) -> Value {
             for p in progs.iter() { if skipped(&json!({"program": p})) { continue; } if let Some(v) = chk_modern_print_program(p) { return v; } }
             nf(&format!("modern printed text is read back identically by parse_sexp and by the classic assembler on the enumerated values, on {} quoted-string constants (3 quote kinds x strings of <= 4 symbols over a ' \" x \\ space s) and on the compiled text of {} programs with string / hex / negative / large / zero-prefixed literals and quoted symbols (recorded findings skipped)", nq, progs.len()))
         }
-        "disassemble" | "ir_for_atom" | "has_oversized_sign_extension" | "consume_quoted" | "pybytes_repr" | "interpret_atom_value" | "assemble" => {
+        "disassemble" | "ir_for_atom" | "has_oversized_sign_extension" | "consume_quoted" | "pybytes_repr" | "interpret_atom_value" | "assemble" | "unit:irwrite" | "unit:irparse" | "unit:irtrip" | "unit:printer" | "unit:quoted" => {
             for d in disasm_inputs() { if let Some(v) = chk_disasm(&d) { return v; } }
             nf("disassemble/assemble round trip holds for the enumerated atoms (all 1-byte, 2304 2-byte, special 3-byte) alone, as operator and as tail, versions 0..2")
         }
@@ -1848,7 +1848,7 @@ pub fn search(name: &str, seed: u64) -> Value {
             } }
             nf("optimize_sexp preserves the value of the enumerated programs (path atoms of 1-4 and 7-9 bytes) x 6 environments (incl. a full tree of depth 17 and combs of depth 80)")
         }
-        "choose_path" | "flatten_signed_int" | "truthy" | "atom_value" | "run_step" | "combine" | "eval_args" | "generate_argument_refs" => {
+        "choose_path" | "flatten_signed_int" | "truthy" | "atom_value" | "run_step" | "combine" | "eval_args" | "generate_argument_refs" | "unit:stepper" | "unit:clvmleaves" => {
             // the sweep is spread over worker threads (each program builds its own allocator); the first hit in enumeration order is reported
             let progs = stepper_programs();
             let workers = 12usize;
@@ -1865,7 +1865,7 @@ pub fn search(name: &str, seed: u64) -> Value {
             if let Some((_, v)) = hits.into_iter().flatten().min_by_key(|(i, _)| *i) { return v; }
             nf(&format!("stepper agrees with clvmr run_program on the {} enumerated programs x 5 environments", progs.len()))
         }
-        "atom_from_stream" | "sexp_from_stream" | "int_from_bytes" | "get_u32" | "read" | "atom_size_blob" | "next" | "write" | "re_allocate" | "sexp_to_stream" => {
+        "atom_from_stream" | "sexp_from_stream" | "int_from_bytes" | "get_u32" | "read" | "atom_size_blob" | "next" | "write" | "re_allocate" | "sexp_to_stream" | "unit:deser" | "unit:tosexp" | "unit:ser" | "unit:serout" | "unit:serloop" => {
             for d in deser_inputs() { if let Some(v) = chk_deser(&d) { return v; } }
             for hex in ["ff0102", "ffff010203", "ff01ff0203", "ffff0102ff0304", "ff83616263ff8180ff80ff0180", "ff80ff8080"] { if let Some(v) = chk_ser_tree(&hexv(hex)) { return v; } }
             for n in [0usize, 1, 2, 0x3f, 0x40, 0x41, 0x1fff, 0x2000, 0x2001, 0xfffff, 0x100000, 0x100001] { if let Some(v) = chk_ser_len(n) { return v; } }
